@@ -1390,7 +1390,9 @@ class Router(NetworkNode, discriminator="router"):
 
     def subject_to_acl(self, frame: Frame) -> bool:
         """Check that frame is subject to ACL rules."""
-        if frame.ip.protocol == "udp" and frame.is_arp:
+        # only genuine ARP packets are exempt: any other payload sent to the ARP port (e.g. a port scan) is ordinary
+        # UDP traffic and must not bypass the rules
+        if frame.ip.protocol == "udp" and frame.is_arp and isinstance(frame.payload, ARPPacket):
             return False
         return True
 
